@@ -30,6 +30,11 @@ fn stuck_operator_terms() -> Vec<(String, M)> {
             (format!("x {} y", op.text()), M::Bin(op, vx(), vy())),
             (format!("x {} 1", op.text()), M::Bin(op, vx(), one())),
             (format!("1 {} y", op.text()), M::Bin(op, one(), vy())),
+            // both operands the same variable: two such terms over different variables differ, although
+            // within each the operands agree
+            (format!("x {} x", op.text()), M::Bin(op, vx(), vx())),
+            (format!("y {} y", op.text()), M::Bin(op, vy(), vy())),
+            (format!("y {} x", op.text()), M::Bin(op, vy(), vx())),
         ] {
             out.push((format!("(x : int) => (y : int) => {name}"), lam2(body.clone())));
             if !op.is_arith() {
